@@ -327,6 +327,42 @@ def fam_core(rng, tier):
                                {"a": "comment", "p": 1, "u": "contrib", "text": "@robot no_octopus"},
                                {"a": "comment", "p": 2, "u": "contrib", "text": "@robot no_octopus"},
                                {"a": "gate", "p": 1}, {"a": "gate", "p": 2}, {"a": "eval_pr", "p": 2}], core=True))
+    # C03: skip-queue direct merge with consecutive merges (no_octopus), up-to-date pull request
+    for casc in ('B3', 'D3s'):
+        d0 = CASCADES[casc]['branches'][0]
+        out.append(dict(id='core/skip-cons/%s' % casc, world=world(casc, 'skip'),
+                        steps=[open_pr(1, d0), {"a": "comment", "p": 1, "u": "contrib", "text": "@robot no_octopus"},
+                               {"a": "gate", "p": 1}, {"a": "finish_queue"}, {"a": "eval_pr", "p": 1}], core=True))
+    # C01: a later destination whose CONTENT equals the earlier one (freshly created), consecutive merges, PR behind
+    for casc in ('A2', 'B3'):
+        byp = ['bypass_author_approval', 'bypass_peer_approval', 'bypass_build_status']
+        for flat in (True, False):
+            wflat = dict(world(casc, 'noqueue', None, byp), flat=flat)
+            out.append(dict(id='core/one-shot-merges/%s/%s' % (casc, 'flat' if flat else 'own'), world=wflat,
+                            steps=[open_pr(1, 'development/4.3'), open_pr(2, 'development/4.3'),
+                                   {"a": "comment", "p": 1, "u": "contrib", "text": "@robot no_octopus"},
+                                   {"a": "comment", "p": 2, "u": "contrib", "text": "@robot no_octopus"},
+                                   {"a": "eval_pr", "p": 1}, {"a": "eval_pr", "p": 2}, {"a": "eval_pr", "p": 2}],
+                            core=True))
+    # C08/C20: delete an old branch while another version has a queue (the archive tag must be on the deleted tip)
+    out.append(dict(id='core/admin/delete-with-foreign-queue', world=world('B3', 'queue'),
+                    steps=[open_pr(1, 'development/5.1'), {"a": "gate", "p": 1},
+                           {"a": "api", "kind": "DeleteBranch", "branch": "development/4.3"},
+                           {"a": "finish_queue"}], core=True))
+    # C20: newest development branch is major-only, queued work, request a new minor of that major
+    out.append(dict(id='core/admin/create-minor-under-major', world=world('E3m', 'queue'),
+                    steps=[{"a": "admin_script", "kind": "CreateBranch", "branch": "development/5.2", "from": None,
+                            "queued": 1}], core=True))
+    # C12: the dependency was only partially merged (it is still open)
+    out.append(dict(id='core/hold-partial-dependency', world=world('B3', 'queue'),
+                    steps=[open_pr(1, 'development/4.3'), {"a": "gate", "p": 1}, {"a": "push_src", "p": 1},
+                           {"a": "finish_queue"}, open_pr(2, 'development/5.1'),
+                           {"a": "comment_after", "p": 2, "dep": 1}, {"a": "eval_pr", "p": 2}, {"a": "gate", "p": 2},
+                           {"a": "finish_queue"}, {"a": "eval_pr", "p": 2}], core=True))
+    # C15: manual commit on a NON-last integration branch, reset requested right away
+    for seq in (['manual_first'], ['manual_first', 'manual1']):
+        out.append(dict(id='core/reset/B3/queue/%s/immediate' % '+'.join(seq), world=world('B3', 'queue'),
+                        steps=[{"a": "reset_script", "seq": seq, "cmd": "reset", "dst": "development/4.3"}], core=True))
     # C12: two dependencies of mixed status
     out.append(dict(id='hold/B3/queue/after_two/core', world=world('B3', 'queue'),
                     steps=[{"a": "hold_script", "hold": "after_two", "pos": "at_open", "dst": "development/4.3",
